@@ -22,6 +22,12 @@ from harness.props import c13 as base
 ERR = {'IndexError': 1, 'KeyError': 1, 'TypeError': 2, 'OSError': 2, 'ValueError': 3}
 
 
+def _mk(ctx):
+    d = ctx.scratch / 'guards'
+    d.mkdir(exist_ok=True)
+    return d
+
+
 def op_amalgamate_rowcount(ctx, d, i):
     from cell_type_mapper.utils.anndata_utils import amalgamate_h5ad
     rng = ctx.rng
@@ -90,7 +96,82 @@ def op_amalgamate_rowcount(ctx, d, i):
                       desc, no_input=True)
 
 
+F27 = 'F27-amalgamate-mixed-dtypes-of-one-file-accepted-and-truncated'
+
+
+def op_amalgamate_mixed_dtypes(ctx, d, i):
+    """Packets whose matrices have DIFFERENT dtypes: in two files, or in two locations (X / layers) of ONE
+    file.  amalgamate_h5ad either refuses ('disparate data types') or, if it returns, must have written the
+    in-memory stack of the selected rows exactly (the property's clause; no model involved)."""
+    from cell_type_mapper.utils.anndata_utils import amalgamate_h5ad
+    rng = ctx.rng
+    sub = d / f'ammd_{i}'
+    sub.mkdir()
+    nc = rng.randrange(1, 6)
+    nr = rng.randrange(2, 7)
+    dt_a, dt_b = rng.sample(['int32', 'float64', 'float32', 'uint16', 'int64'], 2)
+
+    def mat(dt):
+        M = np.zeros((nr, nc), dtype=dt)
+        for a in range(nr):
+            for b in range(nc):
+                if rng.random() < 0.7:
+                    M[a, b] = rng.choice([0.5, 2.75, 3.5, 1.25]) if dt.startswith('float') else rng.randrange(1, 9)
+        return M
+    Ma, Mb = mat(dt_a), mat(dt_b)
+    same_file = rng.random() < 0.7
+    enc_a, enc_b = rng.choice(['csr', 'dense', 'csc']), rng.choice(['csr', 'dense', 'csc'])
+    with base.quiet():
+        if same_file:
+            loc_a, loc_b = rng.choice([('X', 'norm'), ('norm', 'X'), ('raw', 'norm')])
+            pa = pb = sub / 'src.h5ad'
+            base.write_multi(pa, nr, nc, {loc_a: (Ma, enc_a), loc_b: (Mb, enc_b)}, rng)
+        else:
+            loc_a = loc_b = 'X'
+            pa, pb = sub / 'a.h5ad', sub / 'b.h5ad'
+            gen.write_h5ad(pa, Ma, base.names('c', nr), base.names('g', nc), encoding=enc_a)
+            gen.write_h5ad(pb, Mb, base.names('c', nr), base.names('g', nc), encoding=enc_b)
+    rows_a = rng.sample(range(nr), rng.randrange(1, nr + 1))
+    rows_b = rng.sample(range(nr), rng.randrange(1, nr + 1))
+    packets = [{'path': str(pa), 'rows': rows_a, 'layer': loc_a}, {'path': str(pb), 'rows': rows_b, 'layer': loc_b}]
+    want = np.vstack([Ma[rows_a, :].astype(np.float64), Mb[rows_b, :].astype(np.float64)])
+    dst_sparse = rng.random() < 0.5
+    obs_df = pd.DataFrame(index=base.names('o', want.shape[0]))
+    var_df = pd.DataFrame(index=base.names('g', nc))
+    dst = sub / 'dst.h5ad'
+    tmp = sub / 'tmp'
+    tmp.mkdir()
+    err = base.attempt(lambda: amalgamate_h5ad(packets, dst, obs_df, var_df, dst_sparse=dst_sparse,
+                                               tmp_dir=str(tmp), compression=False))
+    if base._TRACE['dir'] is not None:
+        base.take_traces()
+    desc = {'kind': 'amalgamate-mixed-dtypes', 'same_file': same_file, 'locations': [loc_a, loc_b], 'dtypes': [dt_a, dt_b],
+            'encodings': [enc_a, enc_b], 'A': Ma.tolist(), 'B': Mb.tolist(), 'rows': [rows_a, rows_b], 'dst_sparse': dst_sparse}
+    ctx.count(('amalgamate-mixed-dtypes', i), nontrivial=True)
+    ctx.dist('op', 'amalgamate_h5ad(mixed dtypes, %s):%s' % ('one file' if same_file else 'two files',
+                                                              'refused' if err is not None else 'returned'))
+    if err is not None:
+        desc['observed'] = err
+        if err[0] != 'RuntimeError' or 'disparate' not in str(err[1]):
+            ctx.disagreements_checked += 1
+            desc['class'] = 'amalgamate:mixed-dtypes-unexpected-error'
+            ctx.violation(f'amalgamate_h5ad on sources of dtypes {dt_a}/{dt_b} raised {err[0]}: {str(err[1])[:150]} '
+                          '(expected the "disparate data types" refusal)', desc)
+        return
+    enc, arrs = base.h5ad_x(dst)
+    got = np.asarray(base.dense_of_x(enc, arrs, np.float64), dtype=np.float64)
+    if got.shape != want.shape or not np.array_equal(got, want):
+        ctx.disagreements_checked += 1
+        desc['observed'] = got.tolist()
+        desc['class'] = F27 if same_file else 'amalgamate:mixed-dtypes-wrong-matrix'
+        ctx.violation(f'amalgamate_h5ad accepted sources of dtypes {dt_a} ({loc_a}) and {dt_b} ({loc_b})'
+                      f'{" of ONE file" if same_file else ""} and wrote a matrix that differs from the stack of the '
+                      f'selected rows: {got.tolist()} instead of {want.tolist()}', desc)
+
+
 def run(ctx):
+    for i in range(ctx.n(12, 150)):
+        op_amalgamate_mixed_dtypes(ctx, ctx.scratch / 'guards' if (ctx.scratch / 'guards').exists() else _mk(ctx), i)
     ctx.assumptions += [
         'amalgamate_h5ad with len(dst_obs) != number of selected rows is outside the property: on such input '
         'the sparse destination returns normally with a pointer array that is not a CSR pointer array '
